@@ -1,5 +1,5 @@
 (* The rtsp remuxer never panics (and never runs out of fuel) once the fixes are
-   in, with remux.RtspRemuxerAddSpsPps2KeyFrameFlag at its default (false), as
+   in, for both values of remux.RtspRemuxerAddSpsPps2KeyFrameFlag (after the F-46 repair), as
    long as the record parsers do not panic themselves. *)
 From Lal Require Import Common.LBytes Common.Res Media.MediaMsgChecked Media.MediaMsgProofs Media.MediaTsRemux Media.MediaTsProofs
   Media.MediaRtspRemux Rtmp.RtmpAmf0 Rtmp.RtmpMetadata Rtmp.RtmpMetadataProofs.
@@ -36,12 +36,22 @@ Variable rf : rec_fns.
 Variable acfg : amf_cfg.
 Hypothesis FX : fx_msg_ok fx.
 Hypothesis FR : fx_rtspidx fx = true.
+Hypothesis FA : fx_addflag fx = true.
 Hypothesis RF : rf_safe rf.
+Variable add : bool.
+
+Lemma rtsp_add_spspps_ok s m payload t : is_ok (rtsp_add_spspps fx s m payload (Ok t)).
+Proof.
+  destruct FX as (F1 & F2 & F3 & F4 & F5 & F6). unfold rtsp_add_spspps.
+  destruct (avckn_total fx m F3) as [ak ->]. cbn [bind].
+  destruct (ak && _); cbn [bind]; (destruct (hevckn_total fx m F4) as [hk ->]; cbn [bind];
+    destruct hk; [destruct (rs_vps s); [destruct (rs_pps s); eexists; reflexivity|eexists; reflexivity]|eexists; reflexivity]).
+Qed.
 
 Lemma rtsp_remux_ok s m :
-  gate_ok m -> exists s' n, rtsp_remux fx false s m = Ok (s', n) /\ rs_cache s' = rs_cache s.
+  gate_ok m -> exists s' n, rtsp_remux fx add s m = Ok (s', n) /\ rs_cache s' = rs_cache s.
 Proof.
-  destruct FX as (F1 & F2 & F3 & F4 & F5 & F6). intros [Ga Gv]. unfold rtsp_remux.
+  pose proof FX as (F1 & F2 & F3 & F4 & F5 & F6). intros [Ga Gv]. unfold rtsp_remux.
   destruct (mm_type m =? t_audio) eqn:Ta.
   { apply N.eqb_eq in Ta. specialize (Ga Ta).
     pose proof (audio_packer_cache s) as Hc. destruct (rtsp_audio_packer s) as [s1 has]. cbn [fst] in Hc.
@@ -68,11 +78,20 @@ Proof.
   assert (Hle : (index <= length (mm_pay m))%nat).
   { destruct en; cbn [andb] in G; [apply Nat.leb_gt in G; lia|]. rewrite (Hen5 eq_refl). lia. }
   rewrite from_ok by exact Hle. cbn [bind].
-  destruct (video_payloads_ok (negb (rs_video_pt s =? pt_avc)) (skipn index (mm_pay m))) as [n ->]. cbn [bind].
-  do 2 eexists; split; reflexivity.
+  assert (Hfin : forall (s1 : rtsp_st) h p2, exists s' n,
+             (let* n := video_payloads h p2 in Ok (s1, map (pair true) n)) = Ok (s', n) /\ rs_cache s' = rs_cache s1).
+  { intros s1 h p2. destruct (video_payloads_ok h p2) as [n ->]. cbn [bind]. do 2 eexists; split; reflexivity. }
+  destruct add; [|cbn [bind]; exact (Hfin _ _ _)].
+  rewrite FA. destruct (Nat.leb _ 4); [cbn [bind]; exact (Hfin _ _ _)|].
+  destruct (rtsp_add_spspps_ok s m (skipn index (mm_pay m)) (skipn 4 (skipn index (mm_pay m)))) as [p2 Hp2].
+  match goal with |- context [rtsp_add_spspps fx ?a ?b ?c ?e] =>
+    destruct (rtsp_add_spspps fx a b c e) as [p3|er|si] eqn:E3 end.
+  - cbn [bind]. exact (Hfin _ _ _).
+  - exfalso. assert (Hx : @Err bytes er = Ok p2) by (rewrite <- E3; exact Hp2). discriminate Hx.
+  - exfalso. assert (Hx : @Panic bytes si = Ok p2) by (rewrite <- E3; exact Hp2). discriminate Hx.
 Qed.
 
-Lemma rtsp_remux_all_ok l : forall s acc, Forall gate_ok l -> is_ok (rtsp_remux_all fx false s l acc).
+Lemma rtsp_remux_all_ok l : forall s acc, Forall gate_ok l -> is_ok (rtsp_remux_all fx add s l acc).
 Proof.
   induction l as [|m t IH]; intros s acc H; cbn [rtsp_remux_all]; [eexists; reflexivity|].
   inversion H as [|? ? Hm Ht]; subst.
@@ -80,28 +99,33 @@ Proof.
 Qed.
 
 Lemma rtsp_do_analyze_ok s :
-  rtsp_inv s -> exists s' ev, rtsp_do_analyze fx false s = Ok (s', ev) /\ rtsp_inv s'.
+  rtsp_inv s -> exists s' ev, rtsp_do_analyze fx add s = Ok (s', ev) /\ rtsp_inv s'.
 Proof.
   intro Hinv. unfold rtsp_do_analyze.
   destruct (negb (rtsp_enough s)); [do 2 eexists; split; [reflexivity|exact Hinv]|].
   cbn [rs_asc rs_cache rs_done rs_vps rs_sps rs_pps rs_audio_pt rs_video_pt rs_apacker rs_vpacker].
   destruct (rs_asc s) as [asc|].
   - destruct (short asc 2 || (12 <? asc_sfi asc)); [do 2 eexists; split; [reflexivity|exact Hinv]|].
-    match goal with |- context [rtsp_remux_all fx false ?s2 ?l []] => destruct (rtsp_remux_all_ok l s2 [] Hinv) as [[s3 n] ->] end.
+    match goal with |- context [rtsp_remux_all fx add ?s2 ?l []] => destruct (rtsp_remux_all_ok l s2 [] Hinv) as [[s3 n] ->] end.
     cbn [bind]. do 2 eexists; split; [reflexivity|constructor].
-  - match goal with |- context [rtsp_remux_all fx false ?s2 ?l []] => destruct (rtsp_remux_all_ok l s2 [] Hinv) as [[s3 n] ->] end.
+  - match goal with |- context [rtsp_remux_all fx add ?s2 ?l []] => destruct (rtsp_remux_all_ok l s2 [] Hinv) as [[s3 n] ->] end.
     cbn [bind]. do 2 eexists; split; [reflexivity|constructor].
 Qed.
 
 Lemma set_audio_pt_cache s pt : rs_cache (set_audio_pt s pt) = rs_cache s.
 Proof. reflexivity. Qed.
 
+(* no value type makes a comma-ok assertion panic *)
+Lemma assert_f64_ok v : exists r, assert_f64 true v = Ok r.
+Proof. destruct v as [[bits|b|str|l]|]; eexists; reflexivity. Qed.
+
 Lemma rtsp_meta_ok s p : exists s', rtsp_meta acfg s p = Ok s' /\ rs_cache s' = rs_cache s.
 Proof.
-  unfold rtsp_meta. destruct (parse_metadata_no_crash acfg p) as [_ Hnp].
+  unfold rtsp_meta, rtsp_meta_gen. destruct (parse_metadata_no_crash acfg p) as [_ Hnp].
   destruct (fst (parse_metadata acfg p)) as [meta|e|site].
-  - destruct (pairs_find MediaRtspRemux.k_audiocodecid meta) as [[bits|b|str|l]|]; try (eexists; split; reflexivity).
-    eexists; split; [reflexivity|].
+  - destruct (assert_f64_ok (pairs_find MediaRtspRemux.k_audiocodecid meta)) as [codec ->]. cbn [bind].
+    destruct (assert_f64_ok (pairs_find k_audiosamplerate meta)) as [sr ->]. cbn [bind].
+    eexists; split; [reflexivity|]. destruct codec as [bits|]; [|reflexivity].
     destruct (_ =? 8); [reflexivity|]. destruct (_ =? 7); [reflexivity|]. destruct (_ =? 13); reflexivity.
   - eexists; split; reflexivity.
   - exfalso. exact (Hnp site eq_refl).
@@ -133,7 +157,7 @@ Proof.
 Qed.
 
 Lemma rtsp_feed_ok s m :
-  rtsp_inv s -> exists s' ev, rtsp_feed fx rf acfg false s m = Ok (s', ev) /\ rtsp_inv s'.
+  rtsp_inv s -> exists s' ev, rtsp_feed fx rf acfg add s m = Ok (s', ev) /\ rtsp_inv s'.
 Proof.
   destruct FX as (F1 & F2 & F3 & F4 & F5 & F6). intro Hinv. unfold rtsp_feed.
   destruct (mm_type m =? t_meta) eqn:Tm.
